@@ -126,7 +126,7 @@ impl SubCheck for Bookkeeping {
 		"bookkeeping"
 	}
 	fn cases(&self, tier: Tier) -> u32 {
-		tier.pick(6_000, 150_000)
+		tier.pick(80_000, 1_500_000)
 	}
 	fn strategy(&self, tier: Tier) -> BoxedStrategy<SubCase> {
 		let max = tier.pick(16usize, 30);
